@@ -1,1 +1,339 @@
-// harness module (child of the mirrored module)
+// Contracts and proof harnesses for contracts/axelar-gateway/src/contract.rs (entry points).
+use super::*;
+use crate::auth::verif::{any_error, rotate_signers_contract, symbolic_proof, validate_proof_contract, wf, VP_RESULT};
+use soroban_sdk::shim::{self, inst, pers, Wordy, Words, MIGRATING_KEY, OPERATOR_KEY, OWNER_KEY};
+use soroban_sdk::Symbol;
+
+fn sym_string() -> String {
+    String::symbolic()
+}
+fn sym_message() -> Message {
+    Message {
+        source_chain: sym_string(),
+        message_id: sym_string(),
+        source_address: sym_string(),
+        contract_address: Address::symbolic(),
+        payload_hash: BytesN::symbolic(),
+    }
+}
+/// ⟦DataKey::MessageApproval{source_chain, message_id}⟧ — built from the *pair*
+fn approval_key(source_chain: &String, message_id: &String) -> DataKey {
+    DataKey::MessageApproval(MessageApprovalKey { source_chain: source_chain.clone(), message_id: message_id.clone() })
+}
+/// ⟦Approved(keccak(xdr(message)))⟧
+fn spec_approval(env: &Env, m: &Message) -> MessageApprovalValue {
+    MessageApprovalValue::Approved(env.crypto().keccak256(&m.clone().to_xdr(env)).into())
+}
+fn status_pre(k: &DataKey) -> MessageApprovalValue {
+    pers().pre::<_, MessageApprovalValue>(k).unwrap_or(MessageApprovalValue::NotApproved)
+}
+fn status_post(k: &DataKey) -> MessageApprovalValue {
+    pers().post::<_, MessageApprovalValue>(k).unwrap_or(MessageApprovalValue::NotApproved)
+}
+
+// ------------------------------------------------------------------------------------------------
+// C13  call_contract
+// ------------------------------------------------------------------------------------------------
+#[kani::proof]
+fn c13_call_contract() {
+    let env = Env::default();
+    let _h = shim::fresh_host();
+    let caller = Address::symbolic();
+    let chain = sym_string();
+    let dest = sym_string();
+    let payload = Bytes::symbolic();
+
+    AxelarGateway::call_contract(env.clone(), caller.clone(), chain.clone(), dest.clone(), payload.clone());
+
+    let hash: BytesN<32> = env.crypto().keccak256(&payload).into();
+    assert!(shim::authed(&caller), "OBL C13.sender_authorised: an outbound call returns only under the named sender's authorisation");
+    assert!(shim::auth_seq(&caller) < shim::event_seq(0), "OBL C13.auth_before_announcement");
+    assert!(
+        shim::n_events() == 1 && shim::event_is(0, &(Symbol::new(&env, "contract_called"), caller.clone(), chain, dest, hash), &payload),
+        "OBL C13.one_exact_announcement: exactly one contract_called event carrying sender, destination chain and address, keccak256(payload) and the full payload"
+    );
+    assert!(
+        inst().n_written() == 0 && pers().n_written() == 0 && shim::temp().n_written() == 0 && shim::n_calls() == 0 && shim::n_deploys() == 0,
+        "OBL C13.no_state_change: an outbound call changes no gateway state"
+    );
+    kani::cover!(true, "COVER c13 returned");
+}
+
+// ------------------------------------------------------------------------------------------------
+// C02  validate_message / is_message_approved / is_message_executed
+// ------------------------------------------------------------------------------------------------
+#[kani::proof]
+fn c02_validate_message() {
+    let env = Env::default();
+    let _h = shim::fresh_host();
+    let caller = Address::symbolic();
+    let (sc, mid, sa) = (sym_string(), sym_string(), sym_string());
+    let ph: BytesN<32> = BytesN::symbolic();
+
+    let r = AxelarGateway::validate_message(env.clone(), caller.clone(), sc.clone(), mid.clone(), sa.clone(), ph);
+
+    let msg = Message { source_chain: sc.clone(), message_id: mid.clone(), source_address: sa, contract_address: caller.clone(), payload_hash: ph };
+    let k = approval_key(&sc, &mid);
+    let expected = spec_approval(&env, &msg);
+    let before = status_pre(&k);
+    assert!(shim::authed(&caller), "OBL C02.consumer_authorised: a message is consumed only for the address that authorised the call");
+    assert!(
+        r == (before == expected),
+        "OBL C02.consume_iff_exact_approval: true exactly when the record is Approved(hash of the message with contract_address = caller, same source address and payload hash)"
+    );
+    if r {
+        assert!(status_post(&k) == MessageApprovalValue::Executed, "OBL C02.consumed_marks_executed");
+        assert!(
+            shim::n_events() == 1 && shim::event_is(0, &(Symbol::new(&env, "message_executed"), msg.clone()), &()),
+            "OBL C02.one_executed_event"
+        );
+        assert!(pers().changed_only(&[Words::of(&k)]) && inst().n_changed() == 0 && shim::n_calls() == 0, "OBL C02.consume_frame: only this message's record changes");
+        assert!(shim::auth_seq(&caller) < pers().first_write_seq(), "OBL C02.auth_before_write");
+        kani::cover!(true, "COVER c02_validate consumed");
+    } else {
+        assert!(shim::no_effects(), "OBL C02.refused_consume_no_effect");
+        kani::cover!(before == MessageApprovalValue::Executed, "COVER c02_validate already executed");
+        kani::cover!(before == MessageApprovalValue::NotApproved, "COVER c02_validate not approved");
+        kani::cover!(before != MessageApprovalValue::NotApproved && before != MessageApprovalValue::Executed, "COVER c02_validate approved for something else");
+    }
+}
+
+#[kani::proof]
+fn c02_is_message_approved() {
+    let env = Env::default();
+    let _h = shim::fresh_host();
+    let m = sym_message();
+
+    let r = AxelarGateway::is_message_approved(env.clone(), m.source_chain.clone(), m.message_id.clone(), m.source_address.clone(), m.contract_address.clone(), m.payload_hash);
+
+    let k = approval_key(&m.source_chain, &m.message_id);
+    assert!(r == (status_pre(&k) == spec_approval(&env, &m)), "OBL C02.query_approved_agrees: the approved query agrees with the stored record");
+    assert!(shim::no_effects() && shim::n_auth() == 0, "OBL C02.query_approved_pure");
+    kani::cover!(r, "COVER c02_is_approved true");
+    kani::cover!(!r, "COVER c02_is_approved false");
+}
+
+#[kani::proof]
+fn c02_is_message_executed() {
+    let env = Env::default();
+    let _h = shim::fresh_host();
+    let (sc, mid) = (sym_string(), sym_string());
+
+    let r = AxelarGateway::is_message_executed(env.clone(), sc.clone(), mid.clone());
+
+    let k = approval_key(&sc, &mid);
+    assert!(r == (status_pre(&k) == MessageApprovalValue::Executed), "OBL C02.query_executed_agrees: the executed query agrees with the stored record");
+    assert!(shim::no_effects() && shim::n_auth() == 0, "OBL C02.query_executed_pure");
+    kani::cover!(r, "COVER c02_is_executed true");
+    kani::cover!(!r, "COVER c02_is_executed false");
+}
+
+// ------------------------------------------------------------------------------------------------
+// C01 / C02  approve_messages  (BOUNDED in the number of messages: the loop mutates state)
+// ------------------------------------------------------------------------------------------------
+/// ⟦keccak(xdr((ApproveMessages, messages)))⟧
+fn spec_approve_data_hash(env: &Env, messages: &Vec<Message>) -> BytesN<32> {
+    env.crypto().keccak256(&(CommandType::ApproveMessages, messages.clone()).to_xdr(env)).into()
+}
+/// ⟦keccak(xdr((RotateSigners, signers)))⟧
+fn spec_rotate_data_hash(env: &Env, signers: &WeightedSigners) -> BytesN<32> {
+    env.crypto().keccak256(&(CommandType::RotateSigners, signers.clone()).to_xdr(env)).into()
+}
+
+/// returns (ok, in-batch duplicate newly approved, two new ids)
+fn approve_case(n: usize) -> (bool, bool, bool) {
+    let env = Env::default();
+    let _h = shim::fresh_host();
+    let mut messages: Vec<Message> = Vec::new(&env);
+    let m0 = sym_message();
+    let m1 = sym_message();
+    if n >= 1 {
+        messages.push_back(m0.clone());
+    }
+    if n >= 2 {
+        messages.push_back(m1.clone());
+    }
+    let proof = symbolic_proof();
+
+    let r = AxelarGateway::approve_messages(env.clone(), messages.clone(), proof.clone());
+
+    let dh = spec_approve_data_hash(&env, &messages);
+    // --- C01: the verdict comes from validate_proof over exactly this batch, before any effect
+    assert!(
+        shim::internal_call_is(0, "auth::validate_proof", &(dh, proof.clone())),
+        "OBL C01.approve_digest_binds_batch: validate_proof is asked about keccak(xdr((ApproveMessages, exactly this batch))) and this proof"
+    );
+    assert!(dh != spec_rotate_data_hash(&env, &WeightedSigners::symbolic()), "OBL C01.command_kinds_separated: an approval digest is never a rotation digest");
+    let vp = unsafe { VP_RESULT };
+    match r {
+        Ok(()) => {
+            assert!(matches!(vp, Some(Ok(_))), "OBL C01.approve_only_with_valid_proof: approvals are recorded only if validate_proof accepted");
+            assert!(n >= 1, "OBL C01.empty_batch_rejected");
+            assert!(shim::call_seq(0) < pers().first_write_seq() && (shim::n_events() == 0 || shim::call_seq(0) < shim::event_seq(0)), "OBL C01.validated_before_effects");
+            // --- C02: per-message step, in order, including an in-batch duplicate
+            let k0 = approval_key(&m0.source_chain, &m0.message_id);
+            let s0 = status_pre(&k0);
+            let fresh0 = s0 == MessageApprovalValue::NotApproved;
+            let after0 = if fresh0 { spec_approval(&env, &m0) } else { s0.clone() };
+            if n == 1 {
+                assert!(status_post(&k0) == after0, "OBL C02.approve_step_state: an unknown id becomes Approved(hash of the message); a known id keeps its record");
+                assert!(
+                    if fresh0 { shim::n_events() == 1 && shim::event_is(0, &(Symbol::new(&env, "message_approved"), m0.clone()), &()) } else { shim::n_events() == 0 },
+                    "OBL C02.approve_step_event: exactly one message_approved event per newly approved id, none for a known id"
+                );
+                assert!(pers().changed_only(&[Words::of(&k0)]) && inst().n_changed() == 0, "OBL C02.approve_frame");
+            } else {
+                let k1 = approval_key(&m1.source_chain, &m1.message_id);
+                let same = m0.source_chain == m1.source_chain && m0.message_id == m1.message_id;
+                let s1 = if same { after0.clone() } else { status_pre(&k1) };
+                let fresh1 = s1 == MessageApprovalValue::NotApproved;
+                let after1 = if fresh1 { spec_approval(&env, &m1) } else { s1.clone() };
+                assert!(
+                    status_post(&k1) == after1 && (same || status_post(&k0) == after0),
+                    "OBL C02.approve_step_state: an unknown id becomes Approved(hash of the message); a known id (also one approved earlier in the same batch) keeps its record"
+                );
+                let expected_events = fresh0 as usize + fresh1 as usize;
+                let ev0_ok = !fresh0 || shim::event_is(0, &(Symbol::new(&env, "message_approved"), m0.clone()), &());
+                let ev1_ok = !fresh1 || shim::event_is(fresh0 as usize, &(Symbol::new(&env, "message_approved"), m1.clone()), &());
+                assert!(shim::n_events() == expected_events && ev0_ok && ev1_ok, "OBL C02.approve_step_event: exactly one message_approved event per newly approved id, in batch order, none for a known id");
+                assert!(pers().changed_only(&[Words::of(&k0), Words::of(&k1)]) && inst().n_changed() == 0, "OBL C02.approve_frame");
+                return (true, same && fresh0, !same && fresh0 && fresh1);
+            }
+            (true, false, false)
+        }
+        Err(e) => {
+            assert!(
+                match vp {
+                    Some(Err(ve)) => e == ve,
+                    Some(Ok(_)) => n == 0 && e == ContractError::EmptyMessages,
+                    None => false,
+                },
+                "OBL C01.approve_err_is_proof_err: a rejected proof's error is returned unchanged; otherwise only an empty batch fails"
+            );
+            assert!(shim::no_external_effects(), "OBL C01.rejected_approval_no_effect");
+            (false, false, false)
+        }
+    }
+}
+#[kani::proof]
+#[kani::stub(crate::auth::validate_proof, validate_proof_contract)]
+fn c01_approve_messages_n0_bounded() {
+    let (ok, _, _) = approve_case(0);
+    kani::cover!(!ok, "COVER approve n0 err");
+}
+#[kani::proof]
+#[kani::stub(crate::auth::validate_proof, validate_proof_contract)]
+fn c01_approve_messages_n1_bounded() {
+    let (ok, _, _) = approve_case(1);
+    kani::cover!(ok, "COVER approve n1 ok");
+    kani::cover!(!ok, "COVER approve n1 err");
+}
+#[kani::proof]
+#[kani::stub(crate::auth::validate_proof, validate_proof_contract)]
+fn c01_approve_messages_n2_bounded() {
+    let (ok, dup, two) = approve_case(2);
+    kani::cover!(ok && dup, "COVER approve n2 in-batch duplicate");
+    kani::cover!(ok && two, "COVER approve n2 two new ids");
+    kani::cover!(!ok, "COVER approve n2 err");
+}
+
+/// standalone proof check: passes its arguments through, writes nothing
+#[kani::proof]
+#[kani::stub(crate::auth::validate_proof, validate_proof_contract)]
+fn c01_validate_proof_entry() {
+    let env = Env::default();
+    let _h = shim::fresh_host();
+    let dh: BytesN<32> = BytesN::symbolic();
+    let proof = symbolic_proof();
+    let r = <AxelarGateway as AxelarGatewayInterface>::validate_proof(&env, dh, proof.clone());
+    assert!(shim::n_calls() == 1 && shim::internal_call_is(0, "auth::validate_proof", &(dh, proof)), "OBL C01.entry_passes_through: the standalone check asks validate_proof about exactly its arguments");
+    assert!(Some(r) == unsafe { VP_RESULT }, "OBL C01.entry_returns_verdict");
+    assert!(shim::no_external_effects() && shim::n_auth() == 0, "OBL C01.entry_read_only");
+    kani::cover!(r.is_ok(), "COVER c01_entry ok");
+    kani::cover!(r.is_err(), "COVER c01_entry err");
+}
+
+// ------------------------------------------------------------------------------------------------
+// C03 / C08 / C09 / C06  contract::rotate_signers
+// ------------------------------------------------------------------------------------------------
+#[kani::proof]
+#[kani::stub(crate::auth::validate_proof, validate_proof_contract)]
+#[kani::stub(crate::auth::rotate_signers, rotate_signers_contract)]
+fn c03_rotate_signers_entry() {
+    let env = Env::default();
+    let _h = shim::fresh_host();
+    let signers = WeightedSigners::symbolic();
+    let proof = symbolic_proof();
+    let bypass: bool = kani::any();
+
+    let r = <AxelarGateway as AxelarGatewayInterface>::rotate_signers(env.clone(), signers.clone(), proof.clone(), bypass);
+
+    let operator: Option<Address> = inst().pre(&OPERATOR_KEY);
+    let dh = spec_rotate_data_hash(&env, &signers);
+    let vp = unsafe { VP_RESULT };
+    if r.is_ok() {
+        assert!(
+            !bypass || matches!(&operator, Some(op) if shim::authed(op)),
+            "OBL C06.bypass_needs_operator: a bypass rotation succeeds only under the authorisation of the operator stored at entry"
+        );
+        assert!(
+            shim::internal_call_is(0, "auth::validate_proof", &(dh, proof.clone())),
+            "OBL C03.rotation_digest_binds_set: the proof is checked over keccak(xdr((RotateSigners, exactly this candidate set)))"
+        );
+        assert!(
+            match vp {
+                Some(Ok(latest)) => bypass || latest,
+                _ => false,
+            },
+            "OBL C08.rotation_needs_latest_or_bypass: a rotation succeeds only with a valid proof, from the latest set unless the operator bypasses"
+        );
+        assert!(
+            shim::internal_call_is(1, "auth::rotate_signers", &(signers.clone(), !bypass)),
+            "OBL C09.enforce_is_not_bypass: the set is installed through auth::rotate_signers with enforce_rotation_delay == !bypass, after validation"
+        );
+        assert!(wf(&signers), "OBL C03.entry_installs_wellformed_only");
+        assert!(!bypass || matches!(&operator, Some(op) if shim::auth_seq(op) < shim::call_seq(1)), "OBL C06.bypass_auth_before_install");
+        kani::cover!(bypass, "COVER c03_entry ok bypass");
+        kani::cover!(!bypass, "COVER c03_entry ok latest");
+    } else {
+        assert!(inst().n_changed() == 0 && pers().n_changed() == 0 && shim::n_events() == 0, "OBL C03.failed_rotation_no_effect: a refused rotation leaves epoch, lookups and clock as they were");
+        kani::cover!(matches!(vp, Some(Ok(false))) && !bypass, "COVER c03_entry err not latest");
+        kani::cover!(matches!(vp, Some(Err(_))), "COVER c03_entry err invalid proof");
+    }
+}
+
+// ------------------------------------------------------------------------------------------------
+// constructor: establishes the roles, delegates to initialize_auth
+// ------------------------------------------------------------------------------------------------
+pub fn initialize_auth_contract(_env: Env, domain: BytesN<32>, min_delay: u64, retention: u64, sets: Vec<WeightedSigners>) -> Result<(), ContractError> {
+    shim::log_internal("auth::initialize_auth", Words::of(&(domain, min_delay, retention, sets)));
+    if kani::any() {
+        Ok(())
+    } else {
+        Err(any_error())
+    }
+}
+#[kani::proof]
+#[kani::stub(crate::auth::initialize_auth, initialize_auth_contract)]
+fn c06_gateway_constructor() {
+    let env = Env::default();
+    let _h = shim::fresh_host();
+    let (owner, operator) = (Address::symbolic(), Address::symbolic());
+    let domain: BytesN<32> = BytesN::symbolic();
+    let (d, rt): (u64, u64) = (kani::any(), kani::any());
+    let sets: Vec<WeightedSigners> = Vec::abstract_symbolic();
+    let r = AxelarGateway::__constructor(env.clone(), owner.clone(), operator.clone(), domain, d, rt, sets.clone());
+    if r.is_ok() {
+        assert!(inst().post::<_, Address>(&OWNER_KEY) == Some(owner), "OBL C06.ctor_owner_set");
+        assert!(inst().post::<_, Address>(&OPERATOR_KEY) == Some(operator), "OBL C06.ctor_operator_set");
+        assert!(shim::internal_call_is(0, "auth::initialize_auth", &(domain, d, rt, sets)), "OBL C06.ctor_delegates_auth_init");
+        kani::cover!(true, "COVER gw ctor ok");
+    }
+}
+
+// ------------------------------------------------------------------------------------------------
+// C06 / C15  derive-generated admin entry points of the gateway
+// ------------------------------------------------------------------------------------------------
+soroban_sdk::harness_ownable!(AxelarGateway, c06_gateway_transfer_ownership);
+soroban_sdk::harness_operatable!(AxelarGateway, c06_gateway_transfer_operatorship);
+soroban_sdk::harness_upgradable!(AxelarGateway, ContractError, c15_gateway_upgrade, c15_gateway_migrate);
